@@ -111,7 +111,7 @@ def hyp_main(name, strategy, run, max_examples_default=50, stateful_steps=None):
     )
     @given(strategy)
     def prop(c):
-        if t_end is not None and time.time() > t_end and not STATS.failures:
+        if t_end is not None and time.time() > t_end and not STATS.failures:  # (once a failure is known the remaining work is shrinking: never skipped)
             # time budget used up: the remaining examples are skipped (inconclusive beyond this point, never a failure)
             STATS.counters["examples_skipped_after_time_budget"] = STATS.counters.get("examples_skipped_after_time_budget", 0) + 1
             return
